@@ -121,6 +121,24 @@ def stepOpCleanupFails (cfg : Cfg) (w : World) (o : Op) (order : List Method) (n
     if chs.isEmpty then stepOp cfg w o order .none
     else ({ w1 with pub := (commitLoop (if nutsFails then .failNuts else .none) chs order 0 w1.pub).1 }, "err:db")
 
+/-! ### `FindServices` -/
+
+/-- the services `FindServices` takes from ONE DID: those of its `Latest` document whose type is the requested one.
+    `if serviceType != nil && s.Type == *serviceType { append }`: WITHOUT a type nothing is appended (as coded). The
+    "seen" map is keyed by the service ID, which starts with the DID: it never hits across DIDs, and within a document
+    the join table has every service once (`loadContent`). A service = its label (type `T-<label>`). -/
+def servicesOfRow (typ : Option String) (r : DidRow) : List (Nat × String) :=
+  match r.vers with
+  | v :: _ => ((loadContent v.c).svcs.filter (fun l => typ == some l)).map (fun l => (r.id, l))
+  | [] => []
+
+/-- `SqlManager.FindServices(ctx, subject, serviceType)`: (owner DID, service) pairs, in `FindBySubject` order -/
+def findServices (w : World) (s : String) (typ : Option String) : Res (List (Nat × String)) :=
+  let rows := listDIDs w s
+  if rows.isEmpty then .err "nosubject"
+  else if rows.any (fun r => r.vers.isEmpty) then .err "notfound"
+  else .ok (rows.flatMap (servicesOfRow typ))
+
 /-! ### `sortDIDsByMethod`: the order of `ListDIDs` / `List` / the documents `Create` returns -/
 
 /-- a `did.DID` as the comparator sees it -/
